@@ -198,4 +198,27 @@ example : decodeOrder (renderRoot [] "ds".toList demo) = .ok (expectVars demo) :
   C10_decode_order [] _ _ demo_ok demo_refs (by unfold distinctNodes; decide)
     (by unfold distinctDims; decide)
 
+/-- the hypotheses of `C10_response_document_order` are satisfiable: two variables (one ahead of a group, one in
+    it), little-endian, the body cut into three chunks -/
+example :
+    unpackResponse true
+        (fun b => match decodeOrder ((fun _ => renderRoot [] "d".toList tiny) b) with
+          | .ok rs => .ok (rs.map (recLayout fun r => if r.dtype = ">i2".toList then 2 else 1))
+          | .error _ => .error .keyError)
+        (encodeResponse true [60, 62] [[5, 7, 0], [0, 0, 1, 0, 2], [0, 9, 0, 0, 0]])
+      = .ok ([60, 62], true, [⟨[5], some (swapped true 7)⟩, ⟨[1, 2], some (swapped true 9)⟩]) :=
+  C10_response_document_order true (fun _ => renderRoot [] "d".toList tiny) _ [60, 62] [] "d".toList tiny
+    [⟨1, [5], 7⟩, ⟨2, [1, 2], 9⟩] _ rfl tiny_ok tiny_refs (by unfold distinctNodes; decide) (by unfold distinctDims; decide)
+    (by decide) (by decide)
+    (by intro x hx; simp at hx; rcases hx with rfl | rfl <;> exact ⟨by decide, by decide⟩)
+    (by decide) (by simp) (by decide)
+
+example : ∀ s ∈ proxy4Slices [5] [Idx.sl ⟨some 1, some 4, some 2⟩], NormSl s := by
+  have e : proxy4Slices [5] [Idx.sl ⟨some 1, some 4, some 2⟩] = [⟨some 1, some 4, some 2⟩] := by
+    simp [proxy4Slices, fixSlice, expandEll, zipFix, fixAxis, fixSl, combine, combine1, toSlice, orElse, PSlice.all]
+  intro s hs
+  rw [e] at hs
+  exact ⟨1, 4, 2, by simpa using hs, by decide, by decide, by decide⟩
+example : selInt 5 (-2) = some 3 := by decide
+
 end Pydap.C10
